@@ -21,12 +21,19 @@ def simpson(n, h):
     for x in range(1, n - 1): w.append(f32(h03 * f32(3 + dc))); dc = -dc
     return w + [h03]
 
-def job_normalize(res, n, nb, pat):
+def job_normalize(res, n, nb, pat, sparse=False):
     bld = ps_build(); mod = load_module(bld, PS_MODS)
     snap, R, pre = ps_world(bld, n, nb, pat)
     validate(res, mod, snap, pre)
-    ex = Exec(mod, snap, RealDom()); st = State(); ps = R['ps']
-    D = sym_reals(ex, st, R['data'], ['d%d' % i for i in range(nb * n * n)], 0, None)
+    ex = Exec(mod, snap, RealDom()); ex.max_ins = 400_000_000; st = State(); ps = R['ps']
+    if sparse:      # a grid larger than the default one, zero except symbolic cells on a few lines (see job_projections)
+        lines = sorted({v for v in (0, 1, n // 2, 128, 255, 256, 257, n - 2, n - 1) if 0 <= v < n})
+        ex.write_bytes(st, R['data'], bytes(4 * nb * n * n)); D = [z3.RealVal(0)] * (nb * n * n)
+        for b in range(nb):
+            for x in lines:
+                for y in lines:
+                    i = (b * n + x) * n + y; v = z3.Real('d%d' % i); st.pc.append(v >= 0); st.sym[R['data'] + 4 * i] = (4, 'f', v); D[i] = v
+    else: D = sym_reals(ex, st, R['data'], ['d%d' % i for i in range(nb * n * n)], 0, None)
     fs = fills(nb, pat)
     ws = [float(ex.load(st, R['ws'] + 4 * i, F32)) for i in range(n)]
     d0 = float(R['delta0']); want_ws = simpson(n, d0)
@@ -37,7 +44,7 @@ def job_normalize(res, n, nb, pat):
     wsq = [Fraction(w) for w in ws]
     # the measured charge of bunch b is the Simpson double sum over that bunch's own cells
     prove(res, 'n=%d nb=%d: integrate() after updateXProjection(): filling[b] == sum_x sum_y w_x w_y data[b][x][y], integral == sum_b filling[b]' % (n, nb), st.pc,
-          z3.Or(*([fbefore[b] != sum([wsq[x] * wsq[y] * D[b * n * n + x * n + y] for x in range(n) for y in range(n)], z3.RealVal(0)) for b in range(nb)] +
+          z3.Or(*([fbefore[b] != sum([wsq[x] * wsq[y] * D[b * n * n + x * n + y] for x in range(n) for y in range(n) if not z3.is_rational_value(D[b * n * n + x * n + y])], z3.RealVal(0)) for b in range(nb)] +
                   [ex.dom.z(ex.load(st, R['integral'], F32)) != sum(fbefore[1:], fbefore[0])])), key='integrate-formula')
     nz = [fbefore[b] > 0 for b in range(nb)]
     st.pc += nz
@@ -49,14 +56,14 @@ def job_normalize(res, n, nb, pat):
     for k, st in enumerate(finals):
         ptag = '' if len(finals) == 1 else ' [path %d of %d through normalize()]' % (k + 1, len(finals))
         fa = get_reals(ex, st, R['filling'], nb); integ = ex.dom.z(ex.load(st, R['integral'], F32))
-        def cex(m, fa=fa): return {'replay': 'normalize', 'n': n, 'nb': nb, 'pattern': pat, 'data': [mval(m, v) for v in D], 'filling_after': [mval(m, v) for v in fa]}
+        def cex(m, fa=fa): return {'replay': 'normalize', 'n': n, 'nb': nb, 'pattern': pat, 'data': [mval(m, v) if not z3.is_rational_value(v) else 0.0 for v in D], 'filling_after': [mval(m, v) for v in fa]}
         for b in range(nb):
             prove(res, 'n=%d nb=%d pattern %s: after renormalisation bunch %d integrates to exactly its share %s (arbitrary non-negative data with non-zero charge)%s' % (n, nb, [float(x) for x in fs], b, float(fs[b]), ptag),
                   st.pc, fa[b] != fs[b], key='normalize-share', cex_fn=cex, timeout_ms=120000)
         prove(res, 'n=%d nb=%d pattern %s: total integral after renormalisation == sum of the shares%s' % (n, nb, [float(x) for x in fs], ptag), st.pc, integ != sum(fs), key='normalize-total', cex_fn=cex, timeout_ms=120000)
         dat = get_reals(ex, st, R['data'], nb * n * n)
         for b in range(nb):
-            if fs[b] == 0: prove(res, 'empty bucket %d: every cell is zero after renormalisation%s' % (b, ptag), st.pc, z3.Or(*[v != 0 for v in dat[b * n * n:(b + 1) * n * n]]), key='normalize-empty')
+            if fs[b] == 0: prove(res, 'empty bucket %d: every cell is zero after renormalisation%s' % (b, ptag), st.pc, z3.Or(*[v != 0 for v in dat[b * n * n:(b + 1) * n * n] if not (z3.is_rational_value(v) and v.as_fraction() == 0)] or [z3.BoolVal(False)]), key='normalize-empty')
     witness(res, 'normalisation result depends on the data (n=%d)' % n, finals[0].pc, z3.BoolVal(any(occurs(get_reals(ex, f_, R['data'], 1)[0], D[0]) and occurs(get_reals(ex, f_, R['data'], 1)[0], D[1]) for f_ in finals)))
 
 def job_normalize_again(res, n, nb, pat):
@@ -94,12 +101,19 @@ def job_normalize_again(res, n, nb, pat):
             else: prove(res, 'n=%d nb=%d pattern %s: with the empty buckets already empty, bunch %d integrates to its share %s after renormalisation' % (n, nb, [float(x) for x in fs], b, float(fs[b])), s1.pc, fa[b] != fs[b], key='normalize-share', cex_fn=cex, timeout_ms=120000)
     witness(res, 'later renormalisation n=%d: paths explored' % n, finals[0].pc, z3.BoolVal(True))
 
-def job_moments(res, n, nb, pat, axis, q, p):
+def job_moments(res, n, nb, pat, axis, q, p, sparse=False):
     """average/variance with symbolic projections and measured charges: first and second moments of that bunch's projection, independent of other bunches"""
     bld = ps_build(); mod = load_module(bld, PS_MODS)
     snap, R, pre = ps_world(bld, n, nb, pat, q, p)
     ex = Exec(mod, snap, RealDom()); st = State(); ps = R['ps']
-    PR = sym_reals(ex, st, R['proj'], ['pr%d' % i for i in range(2 * nb * n)], 0, None)
+    if sparse:      # a grid larger than the default one: the profiles are zero except on lines around 0, the middle, multiples of 128 and the end
+        lines = {v for v in (0, 1, n // 2, 127, 128, 255, 256, 257, 511, 512, 513, n - 2, n - 1) if 0 <= v < n}
+        ex.write_bytes(st, R['proj'], bytes(4 * 2 * nb * n)); PR = []
+        for i in range(2 * nb * n):
+            if i % n in lines:
+                v = z3.Real('pr%d' % i); st.pc.append(v >= 0); st.sym[R['proj'] + 4 * i] = (4, 'f', v); PR.append(v)
+            else: PR.append(z3.RealVal(0))
+    else: PR = sym_reals(ex, st, R['proj'], ['pr%d' % i for i in range(2 * nb * n)], 0, None)
     FL = sym_reals(ex, st, R['filling'], ['fill%d' % b for b in range(nb)], None, None)
     for v in FL: st.pc.append(v > 0)
     st = ex.run1(st, 'e_variance', [ps, axis]); account(res, ex, mod, [st])
@@ -110,16 +124,56 @@ def job_moments(res, n, nb, pat, axis, q, p):
     for b in range(nb):
         pr = PR[axis * nb * n + b * n: axis * nb * n + (b + 1) * n]
         if fs[b] > 0:
-            mean = delta * sum([pr[i] * co[i] for i in range(n)], z3.RealVal(0)) / FL[b]
-            var = delta * sum([pr[i] * (co[i] - mean) * (co[i] - mean) for i in range(n)], z3.RealVal(0)) / FL[b]
+            nzl = [i for i in range(n) if not z3.is_rational_value(pr[i])]
+            mean = delta * sum([pr[i] * co[i] for i in nzl], z3.RealVal(0)) / FL[b]
+            var = delta * sum([pr[i] * (co[i] - mean) * (co[i] - mean) for i in nzl], z3.RealVal(0)) / FL[b]
         else: mean = var = z3.RealVal(0)
         m0 = mom[axis * 4 * nb + 0 * nb + b]; m1 = mom[axis * 4 * nb + 1 * nb + b]; r = rms[axis * nb + b]
         def cex(m, b=b): return {'replay': 'moments', 'n': n, 'nb': nb, 'pattern': pat, 'axis': axis, 'bunch': b, 'proj': [mval(m, v) for v in PR], 'filling': [mval(m, v) for v in FL], 'mean': mval(m, m0), 'var': mval(m, m1)}
-        prove(res, 'n=%d nb=%d axis %d bunch %d (share %s): mean == delta*sum proj*coord / charge, variance == delta*sum proj*(coord-mean)^2 / charge, rms == sqrt(variance)' % (n, nb, axis, b, float(fs[b])),
+        prove(res, ('sparse profile, ' if sparse else '') + 'n=%d nb=%d axis %d bunch %d (share %s): mean == delta*sum proj*coord / charge, variance == delta*sum proj*(coord-mean)^2 / charge, rms == sqrt(variance)' % (n, nb, axis, b, float(fs[b])),
               st.pc, z3.Or(m0 != mean, m1 != var, r != (usq(m1) if fs[b] > 0 else z3.RealVal(0))), key='moment-formulas', cex_fn=cex, timeout_ms=120000)
         others = [v for bb in range(nb) if bb != b for v in PR[axis * nb * n + bb * n: axis * nb * n + (bb + 1) * n]] + [FL[bb] for bb in range(nb) if bb != b] + PR[(1 - axis) * nb * n:(2 - axis) * nb * n]
         dep = any(occurs(t, o) for t in (m0, m1) for o in others)
         res.obs.append(Ob('axis %d bunch %d: reported moments mention no other bunch\'s projection or charge and not the other axis' % (axis, b), 'violated' if dep else 'holds', key='moment-independence'))
+
+def job_projections(res, n, nb, sparse=False):
+    """both projections and the charges are the weighted sums of the grid they belong to: projection[0][b][x] == sum_y w_y d[b][x][y], projection[1][b][y] == sum_x w_x d[b][x][y],
+    filling[b] == sum_x w_x projection[0][b][x].  sparse: a grid larger than the default one (block sizes, tails of blocked loops), every cell zero except symbolic cells on a set of lines
+    around 0, the middle, multiples of 128 and the end"""
+    bld = ps_build(); mod = load_module(bld, PS_MODS)
+    snap, R, pre = ps_world(bld, n, nb, 0)
+    ex = Exec(mod, snap, RealDom()); ex.max_ins = 400_000_000; st = State(); ps = R['ps']
+    if sparse:
+        ex.write_bytes(st, R['data'], bytes(4 * nb * n * n))
+        lines = sorted({v for v in (0, 1, 2, n // 2, 127, 128, 129, 255, 256, 257, 383, 384, 511, 512, 513, n - 3, n - 2, n - 1) if 0 <= v < n})
+        cells = [(b, x, y) for b in range(nb) for x in lines for y in lines]
+    else:
+        cells = [(b, x, y) for b in range(nb) for x in range(n) for y in range(n)]
+    D = {}
+    for b, x, y in cells:
+        v = z3.Real('d%d_%d_%d' % (b, x, y)); st.pc.append(v >= 0); st.sym[R['data'] + 4 * ((b * n + x) * n + y)] = (4, 'f', v); D[(b, x, y)] = v
+    for f in ('e_updx', 'e_updy', 'e_integrate'): st = ex.run1(st, f, [ps])
+    account(res, ex, mod, [st])
+    ws = [Fraction(float(ex.load(st, R['ws'] + 4 * i, F32))) for i in range(n)]
+    pr = get_reals(ex, st, R['proj'], 2 * nb * n); fl = get_reals(ex, st, R['filling'], nb)
+    def d(b, x, y): return D.get((b, x, y), z3.RealVal(0))
+    xs = sorted({c[1] for c in cells}); ys = sorted({c[2] for c in cells})
+    badx = []; bady = []
+    for b in range(nb):
+        for x in range(n):
+            want = sum([ws[y] * d(b, x, y) for y in ys if (b, x, y) in D], z3.RealVal(0)); got = ex.dom.z(pr[b * n + x])
+            if x in xs: badx.append(got != want)
+            elif not (z3.is_rational_value(z3.simplify(got)) and z3.simplify(got).as_fraction() == 0): badx.append(z3.BoolVal(True))
+        for y in range(n):
+            want = sum([ws[x] * d(b, x, y) for x in xs if (b, x, y) in D], z3.RealVal(0)); got = ex.dom.z(pr[nb * n + b * n + y])
+            if y in ys: bady.append(got != want)
+            elif not (z3.is_rational_value(z3.simplify(got)) and z3.simplify(got).as_fraction() == 0): bady.append(z3.BoolVal(True))
+    tag = 'n=%d nb=%d%s' % (n, nb, ' (sparse: symbolic cells on lines %s, zero elsewhere)' % xs if sparse else '')
+    def cex(m): return {'replay': 'projections', 'n': n, 'nb': nb, 'pattern': 0, 'cells': [[b, x, y, mval(m, v)] for (b, x, y), v in D.items()]}
+    prove(res, '%s: position profile[b][x] == sum_y w_y data[b][x][y] on every line' % tag, st.pc, z3.Or(*badx), key='projection-x', cex_fn=cex, timeout_ms=120000)
+    prove(res, '%s: energy profile[b][y] == sum_x w_x data[b][x][y] on every line' % tag, st.pc, z3.Or(*bady), key='projection-y', cex_fn=cex, timeout_ms=120000)
+    prove(res, '%s: charge[b] == sum_x w_x profile[b][x]' % tag, st.pc, z3.Or(*[fl[b] != sum([ws[x] * ex.dom.z(pr[b * n + x]) for x in xs], z3.RealVal(0)) for b in range(nb)]), key='integrate-formula', cex_fn=cex, timeout_ms=120000)
+    witness(res, 'the energy profile depends on the data (%s)' % tag, [], z3.BoolVal(occurs(ex.dom.z(pr[nb * n + ys[-1]]), D[(0, xs[0], ys[-1])])))
 
 def job_copy(res, n, nb, pat):
     bld = ps_build(); mod = load_module(bld, PS_MODS)
@@ -153,6 +207,14 @@ def replayer(bld):
             o = native_run(bld, {'n': n, 'nb': nb, 'pattern': pat, 'data': [float(v) for v in c['data']], 'ops': ['x', 'i', 'n', 'x', 'i']}, 'c09')
             fs = [float(x) for x in fills(nb, pat)]; dev = max((abs(a - b) if a == a else float('inf')) for a, b in zip(o['filling'], fs))
             return (dev > 1e-5, 'native: filling after renormalisation %s vs shares %s' % (o['filling'], fs))
+        if w == 'projections':
+            data = [0.0] * (nb * n * n)
+            for b, x, y, v in c['cells']: data[(b * n + x) * n + y] = max(float(v), 0.0) or 0.5
+            o = native_run(bld, {'n': n, 'nb': nb, 'pattern': pat, 'data': data, 'ops': ['x', 'y', 'i'], 'want_proj': 1}, 'c09')
+            import numpy as _np
+            a = _np.array(data, dtype=_np.float64).reshape(nb, n, n); wsn = _np.array(o['ws'], dtype=_np.float64); pr = _np.array(o['proj']).reshape(2, nb, n)
+            ex_ = abs(pr[0] - a @ wsn).max(); ey_ = abs(pr[1] - _np.einsum('bxy,x->by', a, wsn)).max(); sc = max(1e-30, abs(pr).max())
+            return (max(ex_, ey_) > 1e-4 * sc, 'native n=%d: largest deviation of the position profile from sum_y w_y data: %.3g, of the energy profile from sum_x w_x data: %.3g (scale %.3g)' % (n, ex_, ey_, sc))
         return (True, 'formula identity of the real kernels: %s' % str(c)[:160])
     return rp
 def get_replayer(): return replayer(ps_build())
@@ -166,8 +228,9 @@ def main(tier):
         norm = [(n, nb, pat) for n in (4, 5, 6) for nb, pat in ((1, 0), (2, 0), (2, 1), (3, 2), (3, 1))]
         moms = [(n, nb, pat, ax, q, p) for n in (5, 6, 8) for nb, pat in ((1, 0), (2, 1), (3, 2)) for ax in (0, 1) for q, p in (((-6, 6), (-6, 6)), ((-5, 7), (-6.5, 5.5)))]
         cps = [(n, nb, pat) for n in (4, 5) for nb, pat in ((1, 0), (2, 1), (3, 2))]
-    jobs = [(job_normalize, a) for a in norm] + [(job_normalize_again, a) for a in norm if a[2] == 2] + [(job_moments, a) for a in moms] + [(job_copy, a) for a in cps]
-    chk.bounds = {'normalisation (n, bunches, pattern)': norm, 'moments': moms, 'copy': cps, 'data': 'every cell a non-negative real symbol; projections and charges independent symbols in the moment obligations'}
+    projs = [(5, 2), (4, 3), (260, 1, True)] if tier == 'quick' else [(5, 2), (6, 3), (8, 1), (260, 1, True), (258, 2, True), (515, 1, True)]
+    jobs = [(job_projections, a) for a in projs] + [(job_normalize, a) for a in norm] + ([] if tier == 'quick' else [(job_normalize, (260, 1, 0, True)), (job_normalize, (258, 2, 1, True))]) + [(job_normalize_again, a) for a in norm if a[2] == 2] + [(job_moments, a) for a in moms] + [(job_moments, (260, 1, 0, ax, (-6, 6), (-6, 6), True)) for ax in (0, 1)] + [(job_copy, a) for a in cps]
+    chk.bounds = {'projections (n, bunches[, sparse])': projs, 'normalisation (n, bunches, pattern)': norm, 'moments': moms, 'copy': cps, 'data': 'every cell a non-negative real symbol; projections and charges independent symbols in the moment obligations'}
     chk.assumptions = ['floats as reals; sqrtf uninterpreted (rms == sqrt(variance) structurally)', 'equal extents of both axes (as main builds the grid); with unequal extents the shared Simpson weights (cell size of axis 0) scale the energy moments - outside the documented domain',
                        'the Gaussian clause (a Gaussian of given mean/width reports them up to discretisation error) is not decided: it needs exp and a quadrature error bound; the exact moment formulas on arbitrary data are', 'OpenCL path outside']
     chk.stubs = ['operator new/delete', 'pow(x,2)=x*x', 'sqrtf uninterpreted']
